@@ -12,12 +12,13 @@ def main():
     if items and items[0] == "--title":
         title = items[1]; items = items[2:]
     out = []
+    prefix = open(path).read() if os.path.exists(path) else ""
     if not os.path.exists(path):
         out.append(f"(** {title or pid} Statements only: every proof is [exact] of a lemma proved elsewhere.\n    (Statements are the lemmas' closed types as printed by Coq, hence the qualified names.) *)")
     out.append(f"From V Require Import {imports}.\n")
     for it in items:
         name, lemma, doc = it.split("=", 2)
-        ty = mkprops.closed_type(imports, lemma)
+        ty = mkprops.closed_type(imports, lemma, prefix)
         out.append(f"(* {doc} *)")
         out.append(f"Theorem {name} :\n  " + ty.replace("\n", "\n  ") + ".")
         out.append(f"Proof. exact @{lemma}. Qed.")
